@@ -660,13 +660,19 @@ func runC01(ctx *Ctx) {
 			} else if s.name == "haselement" {
 				// C01.sound_hasElement_partial: each operand kept, or replaced as a whole by an unknown (the
 				// needle: of its own type, or DynamicVal); decided here, on the wire forms and the public API
-				push(c01Pending{kind: "scope", op: s.name, extra: c01HasElementScope(args, ws, w, ww)}, "judge.c01.scope1 none")
+				if sc := c01HasElementScope(args, ws, w, ww); sc == "out" && w[1] == ww[1] && w[2] == ww[2] {
+					// C01.sound_hasElement_members_partial (slice d01b): the needle kept, the members of the set
+					// weakened in place; every hypothesis is evaluated by the driver (D01b.inScopeHasMembers)
+					push(c01Pending{kind: "scope", op: s.name}, "judge.c01.scopeHas "+w[0]+" "+w[1]+" "+ww[0]+" "+w[2])
+				} else {
+					push(c01Pending{kind: "scope", op: s.name, extra: sc}, "judge.c01.scope1 none")
+				}
 			}
 			push(c01Pending{kind: "sound", op: s.name, os: args, ws: ws, ro: ro, rw: rw, po: po, pw: pw, wireKey: key},
 				verb+strings.Join(w[:nOps], " ")+" "+strings.Join(ww[:nOps], " ")+" "+outcomeWire(ro, po)+" "+outcomeWire(rw, pw))
 		}
 	}
-	for _, c := range append(c01Corpus(), c01D01Corpus()...) {
+	for _, c := range append(append(c01Corpus(), c01D01Corpus()...), c01D01bCorpus()...) {
 		ctx.Tag("corpus")
 		doTuple(specByName[c.op], c.o, [][]cty.Value{c.w}, nil, true)
 	}
@@ -751,6 +757,9 @@ func runC01(ctx *Ctx) {
 				verdict = a[:j]
 			}
 			ctx.Tag("scope:" + p.op + ":" + scope + ":" + verdict)
+			if scope == "in-members" && c01MoreStored(p.os[0], p.ws[0]) {
+				ctx.Tag("scope:haselement:in-members:more-members-stored-than-concrete")
+			}
 		} else {
 			scope = ""
 		}
@@ -766,10 +775,13 @@ func runC01(ctx *Ctx) {
 			why := strings.TrimPrefix(a, "fail ")
 			ctx.Tag("judge:" + p.kind + ":fail")
 			f := Failure{Site: c01Site(p, why), Sig: c01Sig(p, why), What: c01What(p, why), Input: p.wireKey}
-			if p.kind == "sound" && scope == "in" {
+			if p.kind == "sound" && (scope == "in" || scope == "in-members") {
 				// every hypothesis of C01.sound_<op>_partial holds of this run (C01.in_scope_sound): the
 				// theorem says the model passes, so the model is not the code here — never a known finding
 				f.Sig = "contradicts-theorem:in_scope_sound:" + p.op
+				if scope == "in-members" {
+					f.Sig = "contradicts-theorem:in_scope_hasElement_members_sound"
+				}
 			}
 			switch p.kind {
 			case "sound":
